@@ -37,7 +37,7 @@ class Oracle(BaseOracle):
                                 "seed": self.st.seed.name, "depth": len(self.st.hist) + 1,
                                 "args": json.dumps(ev.get("a", []), sort_keys=True)[:200]},
                                {"event": ev, "detail": detail, "level": level, "src_index": len(chain) - 1 - k,
-                                "before": str(src), "after": str(q)})
+                                "before": oracles.sstr(src), "after": oracles.sstr(q)})
         # implicit forwarding: op(q, c) == op(q, q.forward(c)) for cursors c of p
         self.implicit(ev, q)
 
@@ -65,7 +65,7 @@ class Oracle(BaseOracle):
                 self.violation({"oracle": "implicit-forward", "kind": "differs", "op": ev["op"], "seed": self.st.seed.name,
                                 "depth": len(self.st.hist) + 1},
                                {"event": ev, "cursor": [list(x) for x in path], "implicit": r1[:300], "explicit": r2[:300],
-                                "before": str(p), "after": str(q)})
+                                "before": oracles.sstr(p), "after": oracles.sstr(q)})
                 return
 
 
